@@ -11,6 +11,41 @@ from props import c02, c01
 
 LEVEL = "model_checking"
 
+def apalache_facts(ctx):
+    import shutil, subprocess, tempfile, time
+    src = os.path.join(common.SPEC, "apalache", "ContraInt.tla")
+    res = {}
+    for name, mutate in (("facts", None), ("control", ("\\/ eh > lg", "\\/ eh >= lg"))):
+        wd = tempfile.mkdtemp(prefix="apa_", dir=ctx.scratch)
+        text = open(src).read()
+        if mutate:
+            if mutate[0] not in text:
+                raise Inconclusive("apalache control: pattern not found in ContraInt.tla")
+            text = text.replace(mutate[0], mutate[1], 1)
+        open(os.path.join(wd, "ContraInt.tla"), "w").write(text)
+        t = time.time()
+        try:
+            p = subprocess.run(["timeout", "600", "apalache-mc", "check", "--init=Init", "--next=Next", "--inv=Inv", "--length=0", "ContraInt.tla"],
+                               cwd=wd, stdout=subprocess.PIPE, stderr=subprocess.STDOUT, text=True)
+        except Exception as e:
+            raise Inconclusive("apalache failed to start: %s" % e)
+        out = p.stdout
+        ok = "The outcome is: NoError" in out
+        err = "The outcome is: Error" in out
+        log("[apalache] ContraInt %s: %s in %.1fs" % (name, "NoError" if ok else ("counterexample" if err else "rc=%d" % p.returncode), time.time() - t))
+        if not ok and not err:
+            raise Inconclusive("apalache run '%s' neither proved nor refuted: %s" % (name, out[-800:]))
+        res[name] = ok
+    if not res["facts"]:
+        # the specification-level facts (ForkChoice.tla / LiskBFT.tla definitions) fail for some naturals: the bounded tables
+        # above were too small to show it - the model needs attention before anything is concluded about the code
+        raise Inconclusive("Apalache refutes a contradiction / fork-choice fact over the naturals: inspect spec/apalache/ContraInt.tla")
+    if res["control"]:
+        raise Inconclusive("Apalache control (weakened comparison) was not refuted: the obligation is vacuous")
+    return dict(apalache_unbounded_facts=["operational = declarative contradiction", "symmetry", "never across generators", "equal triples contradict",
+                                          "Better is a strict total preorder", "legitimate successor is Better", "honest generator never contradicts itself"],
+                apalache_control_refuted=True)
+
 def run(ctx):
     binp = ctx.go_build("./cmd/c07")
     tables = ctx.path("tables.txt")
@@ -34,6 +69,9 @@ def run(ctx):
         res["pairs"], res["pairs_contradicting"], res["classify_cases"], res["classes"], res["priority_rows"], res["random_pairs"]))
     if not ctx.violations and (res["pairs"] < 1000 or res["classify_cases"] < 100 or len(res["classes"]) < 6):
         raise Inconclusive("truth tables incomplete: vacuous")
+    # unbounded: the same algebraic facts for ALL natural field values, discharged by Apalache (SMT); a control with one
+    # comparison of the operational form weakened must produce a counterexample (the obligation is not vacuous)
+    apa = apalache_facts(ctx)
     # chain-level rule through the real liskbft.Module: IsHeaderContradictingChain probes in the BFT trace
     b2 = ctx.go_build("./cmd/c02")
     chains = 300 if ctx.tier == "quick" else 3000
@@ -51,7 +89,7 @@ def run(ctx):
             raise Inconclusive("fork-tree model violates an invariant at spec level: %s" % hn["outpath"])
     cov = dict(traces_validated_against_impl=res["pairs"] + res["classify_cases"] + res["priority_rows"] + tr["meta"].get("chains", 0),
                samples=res["samples"][:2] + [dict(classes=res["classes"])],
-               header_pairs=res["pairs"], header_pairs_contradicting=res["pairs_contradicting"],
+               **apa, header_pairs=res["pairs"], header_pairs_contradicting=res["pairs_contradicting"],
                classification_rows=res["classify_cases"], priority_rows=res["priority_rows"],
                uint32_pairs=res["random_pairs"], uint32_pairs_contradicting=res["random_pairs_contradicting"],
                chain_contradiction_probes_true=tr["meta"].get("contra_true", 0), exhaustive=True,
